@@ -5,7 +5,7 @@ PATCH=$1; shift
 cd /repo || exit 2
 if [ -n "$(git status --porcelain --untracked-files=no)" ]; then echo "/repo not clean"; exit 2; fi
 git apply "$PATCH" || { echo "patch does not apply"; exit 2; }
-trap 'git -C /repo checkout -- . ' EXIT
+trap 'git -C /repo checkout -- . ; git -C /repo clean -fdq' EXIT
 cd /verif
 for p in "$@"; do
   out=$(VERIF_NOWRITE=1 ./check "$p" quick 2>&1); rc=$?
